@@ -332,7 +332,7 @@ func runHistory(c *lib.Ctx, hid, nReloads, W int) {
 		for _, st := range []struct {
 			name string
 			port int
-		}{{"a", h.p1}, {"c", h.p2}} {
+		}{{"a", h.p1}, {"c", h.p2}, {"a", h.p1}, {"c", h.p2}} {
 			st := st
 			wg.Add(1)
 			go func() {
@@ -356,14 +356,12 @@ func runHistory(c *lib.Ctx, hid, nReloads, W int) {
 					}
 					// finish the request: it was in flight across whatever reloads happened
 					// meanwhile and must still get one complete, self-consistent answer
+					// (the instance is only stopped after this goroutine has ended, so the
+					// request is judged also when the history is about to end; 10 s without
+					// an answer to a completed request on a loopback socket is no answer)
+					k.Timeout = 10 * time.Second
 					resp := k.Do("GET", []byte("Connection: close\r\n\r\n"))
 					k.Close()
-					select {
-					case <-stop:
-						// the history is being torn down: not judged
-						return
-					default:
-					}
 					c.Count("stalled_requests_judged", 1)
 					what := ""
 					switch {
